@@ -116,7 +116,7 @@ class Report:
         same clause on the explicit small games: when every instance of `new_rule` holds (and its floor is met), the undecided
         instances of `old_rules` are recorded as assumed, with the reason. A violated instance is never touched."""
         new = [i for i in self.instances if i.rule == new_rule]
-        if not new or len(new) < self.floors.get(new_rule, 1) or any(i.verdict != HOLDS for i in new):
+        if not new or len(new) < max(self.floors.get(new_rule, 1), self.__dict__.get("counterpart_min", {}).get(new_rule, 1)) or any(i.verdict != HOLDS for i in new):
             return 0
         n = 0
         for i in self.instances:
@@ -140,7 +140,7 @@ class Report:
         recorded as undecided (exit 2, no VIOLATION line) — the code shape is not one the structural rule understands, and beyond
         the small games nothing is known. A violation reported by `new_rule` itself, or by a rule without such a counterpart, stands."""
         new = [i for i in self.instances if i.rule == new_rule]
-        if not new or len(new) < self.floors.get(new_rule, 1) or any(i.verdict != HOLDS for i in new):
+        if not new or len(new) < max(self.floors.get(new_rule, 1), self.__dict__.get("counterpart_min", {}).get(new_rule, 1)) or any(i.verdict != HOLDS for i in new):
             return 0
         n = 0
         for i in self.instances:
